@@ -107,8 +107,12 @@ func c18Drive(args []string) int {
 		{minis["fixedlength"], func(p []byte) []byte { return cat([]byte("A"), p, []byte("\nB0010\nA02 second\nB0020\n")) }},
 		{minis["fixedlength2"], func(p []byte) []byte { return cat([]byte("H"), p, []byte("\nDitem1\nH0020020\n")) }},
 		{minis["edi"], func(p []byte) []byte { return cat([]byte("HDR*"), p, []byte("*1~\nITM*s1:x~\nHDR*b*2~\n")) }},
-		{minis["json"], func(p []byte) []byte { return cat([]byte(`[{"id": "`), p, []byte(`", "qty": 1}, {"id": "b", "qty": 2}]`)) }},
-		{minis["xml"], func(p []byte) []byte { return cat([]byte(`<root><rec id="a"><qty>1</qty><tag>`), p, []byte(`</tag></rec><rec id="b"><qty>2</qty></rec></root>`)) }},
+		{minis["json"], func(p []byte) []byte {
+			return cat([]byte(`[{"id": "`), p, []byte(`", "qty": 1}, {"id": "b", "qty": 2}]`))
+		}},
+		{minis["xml"], func(p []byte) []byte {
+			return cat([]byte(`<root><rec id="a"><qty>1</qty><tag>`), p, []byte(`</tag></rec><rec id="b"><qty>2</qty></rec></root>`))
+		}},
 	}
 	for _, ft := range tmpls {
 		schU, err, p := newSchema(ft.s.Schema)
